@@ -369,6 +369,7 @@ func c20LRU(env *Env, res *Result) {
 	}
 	alphabet = append(alphabet, lruOp{K: "purge"})
 	job := 0
+	instances := map[string]lruIface{}
 	var cur []lruOp
 	var rec func()
 	rec = func() {
@@ -377,6 +378,9 @@ func c20LRU(env *Env, res *Result) {
 		}
 		if len(cur) > 0 {
 			job++
+			if job%4096 == 0 {
+				Progress.Add(1)
+			}
 			if job%env.NShards == env.Shard {
 				for _, capv := range []int{1, 64} {
 					for _, ttl := range []bool{false, true} {
@@ -385,20 +389,28 @@ func c20LRU(env *Env, res *Result) {
 							o.Val = 100*i + o.Key
 							ops[i] = o
 						}
-						var c lruIface
-						if ttl {
-							x, err := cache.NewLRUWithExpires[int, int](capv, time.Hour, "c20")
-							if err != nil {
-								continue
+						// one instance per (capacity, kind), emptied with Purge before every
+						// sequence: every expirable LRU starts a janitor goroutine that never
+						// ends, so an instance per sequence leaks millions of them
+						ck := fmt.Sprintf("%d/%v", capv, ttl)
+						c := instances[ck]
+						if c == nil {
+							if ttl {
+								x, err := cache.NewLRUWithExpires[int, int](capv, time.Hour, "c20")
+								if err != nil {
+									continue
+								}
+								c = x
+							} else {
+								x, err := cache.NewLRU[int, int](capv, "c20")
+								if err != nil {
+									continue
+								}
+								c = x
 							}
-							c = x
-						} else {
-							x, err := cache.NewLRU[int, int](capv, "c20")
-							if err != nil {
-								continue
-							}
-							c = x
+							instances[ck] = c
 						}
+						c.Purge()
 						diff := lruReplay(c, ops)
 						res.Evaluations++
 						if len(ops) >= 3 {
